@@ -6,6 +6,7 @@ import (
 	"os"
 	"path/filepath"
 	"regexp"
+	"runtime"
 	"sort"
 	"strings"
 	"sync/atomic"
@@ -216,6 +217,59 @@ func c18Reconnect(c *Ctx) {
 	}
 }
 
+// c18ManyUnreachable: more servers than the client connects to at a time (ConnectionsPerCPU x CPUs), all of them
+// unreachable at the SSH level: every listed entry must still be contacted exactly once and dcat must end.
+func c18ManyUnreachable(c *Ctx) {
+	for _, extra := range []int{-1, 1, 5} {
+		n := runtime.NumCPU() + extra
+		var listed []*dropListener
+		var entries []string
+		for i := 0; i < n; i++ {
+			d := newDropListener()
+			listed = append(listed, d)
+			entries = append(entries, fmt.Sprintf("127.0.0.1:%d", d.port()))
+		}
+		var startErr string
+		res := vrt.Run(vrt.Config{MaxSteps: 5000000, Horizon: 3 * time.Minute}, func() {
+			args := DefaultArgs()
+			args.NoColor = true
+			args.Quiet = true
+			args.LogLevel = "error"
+			args.What = "/nonexistent/x.log"
+			args.ServersStr = strings.Join(entries, ",")
+			args.ConnectionsPerCPU = 1
+			args.SSHAuthMethods = []ssh.AuthMethod{ssh.Password("x")}
+			env := StartEnv(source.Client, &args, nil)
+			cl, err := clients.NewCatClient(args)
+			if err != nil {
+				startErr = err.Error()
+				return
+			}
+			stats := vrt.Make[string]("statsCh", 0)
+			cl.Start(env.Ctx, stats)
+		})
+		c.Count(fmt.Sprintf("many-unreachable|%d", n))
+		var wrong []string
+		for i, d := range listed {
+			if k := d.contacts(); k != 1 {
+				wrong = append(wrong, fmt.Sprintf("%s contacted %d times", entries[i], k))
+			}
+			d.l.Close()
+		}
+		if startErr != "" || res.Fail != nil || len(wrong) > 0 {
+			if len(wrong) > 6 {
+				wrong = append(wrong[:6], fmt.Sprintf("... (%d entries in all)", len(wrong)))
+			}
+			msg := ""
+			if res.Fail != nil {
+				msg = res.Fail.Kind
+			}
+			c.Violation("servers-not-contacted-when-many-are-unreachable", fmt.Sprintf("dcat with %d listed servers that all drop the connection, %d connections at a time: %v %s %s (want every entry contacted exactly once and the client to end)",
+				n, runtime.NumCPU(), wrong, startErr, msg), map[string]int{"servers": n})
+		}
+	}
+}
+
 func c18Lists(maxLen int) (out [][]string) {
 	alpha := []string{"a", "b", "c:2222", "a.dom"}
 	var rec func(cur []string)
@@ -240,7 +294,7 @@ func init() {
 		Level: "model_checking",
 		Rule: "all server lists of length 1..5 (quick) / 1..6 (thorough) over {a, b, c:2222, a.dom} (so all duplicate patterns), given as comma list, as server file (newline-terminated, without final newline, CRLF, reached through a symbolic link and through a chain of two) and through a discovery " +
 			"module with the filters none, /a/, /^c/, /x/, /./; every random number the shuffle draws is an environment choice and ALL answer sequences are explored " +
-			"(complete tree, no bound); oracle: returned multiset == distinct entries matching the filter; plus, end to end, a real dcat over every list of <=3 entries (every entry an in-process server): each distinct server delivers the file exactly once; and a following client whose connections are all dropped re-connects only to the listed host:port entries (real TCP listeners, virtual time); distinct = distinct (case, returned order) pairs",
+			"(complete tree, no bound); oracle: returned multiset == distinct entries matching the filter; plus, end to end, a real dcat over every list of <=3 entries (every entry an in-process server): each distinct server delivers the file exactly once; and a following client whose connections are all dropped re-connects only to the listed host:port entries (real TCP listeners, virtual time); and a dcat over more unreachable servers than it connects to at a time (CPUs-1, +1, +5 entries, one connection per CPU) contacts each exactly once and ends; distinct = distinct (case, returned order) pairs",
 		Assumptions: []string{"math/rand is replaced by an explorer-owned choice; regexp is trusted"},
 		Run: func(c *Ctx) {
 			n := 5
@@ -279,6 +333,7 @@ func init() {
 			}
 			if c.Shard == 0 {
 				c18Reconnect(c)
+				c18ManyUnreachable(c)
 			}
 			// end to end: the set of servers a real client actually contacts (host names without port;
 			// the serverless connector gives every entry its own in-process server named after the entry)
